@@ -39,6 +39,48 @@ theorem mem_choose {α : Type} (k : Nat) (l s : List α) : s ∈ choose k l ↔ 
           rename_i t
           exact Or.inl ⟨t, ⟨h, by simpa using hl⟩, rfl⟩
 
+/-! ### the assignment of lambdas to members -/
+
+theorem head?_flatMap_firstSome {β : Type} (g : Nat → List β) (is : List Nat) :
+    (is.flatMap g).head? = firstSome (fun i => (g i).head?) is := by
+  induction is with
+  | nil => rfl
+  | cons i r ih =>
+    simp only [List.flatMap_cons, firstSome]
+    cases hg : g i with
+    | nil => simpa using ih
+    | cons x xs => simp
+
+/-- The backtracking walk returns the FIRST of all injective assignments (in the order in which members are tried) —
+in particular it finds one whenever one exists. -/
+theorem assignBT_eq_head (m : Nat → BPoint → Bool) (l : Nat) :
+    ∀ (s : Nat) (rest : List BPoint), assignBT m l s rest = (assignments m l s rest).head? := by
+  induction l with
+  | zero => intro s rest; simp [assignBT, assignments]
+  | succ l ih =>
+    intro s rest
+    simp only [assignBT, assignments]
+    rw [head?_flatMap_firstSome]
+    congr 1
+    funext i
+    cases nth? rest i with
+    | none => rfl
+    | some x =>
+      simp only
+      by_cases hm : m s x = true
+      · simp only [hm, if_true, ih, List.head?_map]
+      · simp [hm]
+
+theorem assignBT_isSome_iff (m : Nat → BPoint → Bool) (l s : Nat) (rest : List BPoint) :
+    (assignBT m l s rest).isSome = true ↔ assignments m l s rest ≠ [] := by
+  rw [assignBT_eq_head]
+  cases assignments m l s rest <;> simp
+
+theorem assignBT_mem (m : Nat → BPoint → Bool) (l s : Nat) (rest sel : List BPoint) (h : assignBT m l s rest = some sel) :
+    sel ∈ assignments m l s rest := by
+  rw [assignBT_eq_head] at h
+  exact List.mem_of_mem_head? (by rw [h]; simp)
+
 /-! ### buckets fit -/
 
 /-- the number of candidate sets of a bucket of n points does not exceed `.max()` -/
